@@ -407,17 +407,17 @@ def rule_r7(F, rep):
 
 
 def run(F, rep, tier):
-    rule_r1(F, rep)
-    units.rule_byte_index(F, rep, "C20.R2")
-    c06.rule_r1(F, rep)
-    rule_r4(F, rep)
-    rule_r5(F, rep)
-    rule_r6(F, rep)
-    rule_r7(F, rep)
+    rep.attempt(rule_r1, F, rep)
+    rep.attempt(units.rule_byte_index, F, rep, "C20.R2")
+    rep.attempt(c06.rule_r1, F, rep)
+    rep.attempt(rule_r4, F, rep)
+    rep.attempt(rule_r5, F, rep)
+    rep.attempt(rule_r6, F, rep)
+    rep.attempt(rule_r7, F, rep)
     # std.escapeStringJson / escapeStringPython are the manifesters' escaper: its per-character table and bulk-copy guard
     from . import c05
-    c05.rule_r1(F, rep)
-    c05.rule_r1b(F, rep)
+    rep.attempt(c05.rule_r1, F, rep)
+    rep.attempt(c05.rule_r1b, F, rep)
     rep.assume("base64 / UTF-8 / digest / escape-function values, decoder-inverts-encoder, YAML/JSON agreement and "
                "totality inside saphyr-parser are value-level or external and not decided")
     return EXPLANATION
